@@ -584,3 +584,60 @@ def show(t, maxlen=200):
 
     s = r(t)
     return s if len(s) <= maxlen else s[: maxlen - 3] + "..."
+
+
+# ---------------------------------------------------------------------- canonical accessor spelling
+def _accessor_maps(model):
+    cache = getattr(model, "_accessor_maps", None)
+    if cache is not None:
+        return cache
+    props = {}
+    aliases = {}
+    for ci in model.classes.values():
+        for p, (g, _s) in ci.properties.items():
+            if g is not None:
+                props.setdefault(p, set()).add(g.name)
+        for a, o in ci.aliases.items():
+            if o in ci.methods or model.lookup(ci.name, o) is not None:
+                aliases.setdefault(a, set()).add(o)
+    props = {p: next(iter(v)) for p, v in props.items() if len(v) == 1}
+    aliases = {a: next(iter(v)) for a, v in aliases.items() if len(v) == 1}
+    # an alias of an alias / a property whose getter is itself an alias
+    props = {p: aliases.get(g, g) for p, g in props.items()}
+    model._accessor_maps = (props, aliases)
+    return model._accessor_maps
+
+
+def canon(model, t):
+    """Rewrite property reads and method aliases to one spelling: `x.unit` -> `x.GetUnit()`,
+    `x.value` / `x.GetValue(..)` -> `x.GetAbstractValue(..)`, so that equivalent accessors compare equal."""
+    props, aliases = _accessor_maps(model)
+
+    def r(t):
+        if not isinstance(t, tuple) or not t:
+            return t
+        h = t[0]
+        if h == "field":
+            if t[1] in props:
+                return ("call", ("field", props[t[1]]), (), ())
+            return ("field", aliases.get(t[1], t[1]))
+        if h == "attr":
+            b = r(t[1])
+            if t[2] in props:
+                return ("call", ("attr", b, props[t[2]]), (), ())
+            return ("attr", b, aliases.get(t[2], t[2]))
+        if h in ("elem", "outer"):
+            return (h, r(t[1]))
+        if h == "call":
+            return (h, r(t[1]), tuple(r(a) for a in t[2]), tuple((k, r(v)) for k, v in t[3]))
+        if h == "sub":
+            return (h, r(t[1]), r(t[2]))
+        if h in ("tuple", "list", "phi"):
+            return (h, tuple(r(a) for a in t[1]))
+        if h == "op":
+            return (h, t[1], tuple(r(a) for a in t[2]))
+        if h == "gen":
+            return (h, r(t[1]), tuple(r(a) for a in t[2]))
+        return t
+
+    return r(t)
